@@ -39,7 +39,9 @@ func cliWarrior(rng *rand.Rand, maxLen int, legacy bool) []byte {
 			}
 		}
 		if n >= 1 && n <= maxLen {
-			return render(rng, items, true)
+			// half of the files in free layout: any spacing and case, leading zeros, comments, CR-LF,
+			// no newline after the last line
+			return render(rng, items, rng.Intn(2) == 0)
 		}
 	}
 }
@@ -106,6 +108,10 @@ func genCLI(out *bufio.Writer, rng *rand.Rand, count int) int {
 			ln = 5
 			legacy = preset == "88" || preset == "icws"
 			cycles = 0 // unused
+			if pc, err := gmars.PresetConfig(preset); err == nil && fixed != 0 && rng.Intn(3) == 0 {
+				// a placement at or beyond the PRESET's core size (the -s flag, given or not, is ignored)
+				fixed = (1+rng.Intn(3))*int(pc.CoreSize) + []int{0, 0, 10, 103, int(pc.CoreSize) - 11}[rng.Intn(5)]
+			}
 		}
 		debug := fixed == 0 && preset == "" && cycles <= 200 && rng.Intn(2) == 0
 		nfiles := 2
@@ -205,6 +211,13 @@ func genCLI(out *bufio.Writer, rng *rand.Rand, count int) int {
 		}
 		args := []string{}
 		if preset != "" {
+			if rng.Intn(2) == 0 {
+				// contradicting flags next to a preset: the preset wins
+				args = append(args, "-s", fmt.Sprint(size), "-p", fmt.Sprint(procs), "-l", fmt.Sprint(1+rng.Intn(50)))
+				if rng.Intn(2) == 0 {
+					args = append(args, "-8")
+				}
+			}
 			args = append(args, "-preset", preset)
 		} else {
 			if legacy {
